@@ -149,6 +149,7 @@ func c08(c *Ctx) {
 	slots := map[*types.Var]bool{}
 	targets := map[*types.Var]bool{}
 	var cancels []*ssa.Function
+	restoreFns := map[*ssa.Function]bool{}
 	for _, n := range impls {
 		cf := methodOf(p, n, "Cancel")
 		if cf == nil || cf.Blocks == nil || doneCancel[cf] {
@@ -156,13 +157,50 @@ func c08(c *Ctx) {
 		}
 		doneCancel[cf] = true
 		cancels = append(cancels, cf)
-		sets := callsTo(cf, setName)
+		// the write-back may live in a helper method Cancel calls on the same receiver
+		type wb struct {
+			set    ssa.Instruction
+			blocks []*ssa.BasicBlock // the Set's block and the blocks of the calls leading to it
+		}
+		var wbs []wb
+		var collect func(f *ssa.Function, chain []*ssa.BasicBlock, depth int)
+		collect = func(f *ssa.Function, chain []*ssa.BasicBlock, depth int) {
+			restoreFns[f] = true
+			for _, s := range callsTo(f, setName) {
+				wbs = append(wbs, wb{s, append(append([]*ssa.BasicBlock{}, chain...), s.Block())})
+			}
+			if depth == 0 {
+				return
+			}
+			eachInstr(f, func(i ssa.Instruction) {
+				cl, ok := i.(*ssa.Call)
+				if !ok {
+					return
+				}
+				cal := staticCallee(cl.Common())
+				if cal == nil || cal.Blocks == nil || cal.Signature.Recv() == nil || len(cl.Call.Args) == 0 || cal == f {
+					return
+				}
+				if resolveLocal(cl.Call.Args[0]) != ssa.Value(f.Params[0]) || !types.Identical(cal.Params[0].Type(), f.Params[0].Type()) {
+					return
+				}
+				collect(cal, append(append([]*ssa.BasicBlock{}, chain...), cl.Block()), depth-1)
+			})
+		}
+		collect(cf, nil, 2)
+		var sets []ssa.Instruction
+		guardBlocks := map[ssa.Instruction][]*ssa.BasicBlock{}
+		for _, w := range wbs {
+			sets = append(sets, w.set)
+			guardBlocks[w.set] = w.blocks
+		}
 		if len(sets) == 0 {
 			r.Bad("C08.R2", "write-back in "+shortName(cf), p.Pos(cf.Pos()), "Cancel does not write anything back to the variable")
 			continue
 		}
 		fields := structFieldsDeep(cf.Params[0].Type())
 		for _, s := range sets {
+			sfn := s.Parent()
 			args := callCommon(s).Args
 			var slot, tgt *types.Var
 			for _, f := range fields {
@@ -176,23 +214,25 @@ func c08(c *Ctx) {
 				}
 			}
 			if slot == nil || tgt == nil {
-				r.Bad("C08.R2", "write-back operands in "+shortName(cf), p.Pos(posOf(s)), "Cancel's write-back does not take its value from a remembered field of the mocker / does not address the mocked variable")
+				r.Bad("C08.R2", "write-back operands in "+shortName(sfn), p.Pos(posOf(s)), "Cancel's write-back does not take its value from a remembered field of the mocker / does not address the mocked variable")
 				continue
 			}
 			slots[slot], targets[tgt] = true, true
-			r.OK("C08.R2", "write-back operands in "+shortName(cf), p.Pos(posOf(s)), "writes "+slot.Name()+" back to "+tgt.Name())
+			r.OK("C08.R2", "write-back operands in "+shortName(sfn), p.Pos(posOf(s)), "writes "+slot.Name()+" back to "+tgt.Name())
 			// restore only if captured: guarded by a bool flag (true) or slot != nil
 			guarded := false
-			for _, f := range fields {
-				if v, k := boolGuardOnField(s.Block(), f); k && v {
-					// the flag must be one that the capture sets (checked in R1 via same field)
+			for _, gb := range guardBlocks[s] {
+				for _, f := range fields {
+					if v, k := boolGuardOnField(gb, f); k && v {
+						// the flag must be one that the capture sets (checked in R1 via same field)
+						guarded = true
+					}
+				}
+				if isNil, k := nilGuardOnField(gb, slot); k && !isNil {
 					guarded = true
 				}
 			}
-			if isNil, k := nilGuardOnField(s.Block(), slot); k && !isNil {
-				guarded = true
-			}
-			r.Check(guarded, "C08.R2", "write-back only if captured in "+shortName(cf), p.Pos(posOf(s)), "write-back guarded by the captured predicate",
+			r.Check(guarded, "C08.R2", "write-back only if captured in "+shortName(sfn), p.Pos(posOf(s)), "write-back guarded by the captured predicate",
 				"Cancel writes the remembered slot back unconditionally: cancelling a variable mock that was never Set writes an invalid/zero value (reflect panics) instead of leaving the variable untouched")
 		}
 	}
@@ -243,6 +283,15 @@ func c08(c *Ctx) {
 			if c == f {
 				return true
 			}
+		}
+		if restoreFns[f] {
+			// a restore helper: only if every caller is itself part of the Cancel chain
+			for _, cs := range p.callersOfAny(f) {
+				if !restoreFns[cs.Caller] {
+					return false
+				}
+			}
+			return true
 		}
 		return false
 	}
